@@ -602,6 +602,10 @@ func (c *client) Start() {
 	go func() {
 		c.loopWrite()
 		c.conn.Close()
+		// the reader may be waiting for a request instead of reading: tell it too.
+		c.quitOnce.Do(func() {
+			close(c.quit)
+		})
 		close(writeDone)
 	}()
 
